@@ -137,7 +137,10 @@ void run_ops(const Plan& plan, Model& m, std::vector<std::string>& history, AddF
     }
     size_t offset = ~size_t(0);
     size_t pool_size = 0, pool_align = 0;
+    size_t size_before = direct_pool ? direct_pool->size() : 0, align_before = direct_pool ? direct_pool->alignment() : 0;
     Error err = add_fn(data, offset, pool_size, pool_align);
+    // an add() that reports a failure leaves the pool as it was: repeating it must not land somewhere else than it would have
+    if (direct_pool && err != Error::kOk) SIM_CHECK(direct_pool->size() == size_before && direct_pool->alignment() == align_before, "c19:failed-add-changed-pool", "add(%zu bytes) failed with error %u but the pool grew from %zu to %zu bytes (alignment %zu -> %zu)", data.size(), unsigned(err), size_before, direct_pool->size(), align_before, direct_pool->alignment());
     sim::logf("%s size=%zu err=%u off=%zu", op_name(op.kind), data.size(), unsigned(err), err == Error::kOk ? offset : size_t(0));
     if (expect_invalid) {
       SIM_CHECK(err != Error::kOk, "c19:invalid-size-accepted", "add() accepted a constant of %zu bytes", data.size());
@@ -268,6 +271,8 @@ void execute_compiler(const Plan& plan) {
       sim::count("c19.probe.compiler_recycled_after_abandoned_function");
     }
     FuncNode* fn = attached ? cc.add_func(FuncSignature::build<void>()) : nullptr;
+    // a varying number of labels, so that the pool's own label lands on different capacities of the label arrays
+    for (int64_t i = 0, n = plan.get("extra_labels", 0); fn && i < n; i++) (void)cc.new_label();
     struct Handed { uint32_t label_id; size_t offset; std::string bytes; };
     std::vector<Handed> handed;
     Model scopes[2];
@@ -287,6 +292,12 @@ void execute_compiler(const Plan& plan) {
       int scope = int(op.a[3] & 1);
       BaseMem mem;
       (void)cc._new_const(Out<BaseMem>(mem), ConstPoolScope(scope), data.data(), data.size());
+      if ((mem.is_none() || !mem.has_base_label()) && sim::run_faults_fired_total() > 0) {
+        // the call reported the failure; repeating it once memory is available must give a usable constant
+        sim::count("c19.probe.new_const_repeated_after_failure");
+        (void)cc._new_const(Out<BaseMem>(mem), ConstPoolScope(scope), data.data(), data.size());
+        if (!mem.is_none() && mem.has_base_label()) SIM_CHECK(code.is_label_valid(mem.base_id()) && !code.is_label_bound(mem.base_id()), "c19:new-const-after-failure", "new_const() repeated after a reported failure returned an operand based on label %u, which is %s", mem.base_id(), code.is_label_valid(mem.base_id()) ? "already bound" : "not a label of this holder");
+      }
       if (mem.is_none() || !mem.has_base_label()) {
         SIM_CHECK(sim::run_faults_fired_total() > 0, "c19:new-const-failed", "new_const(%zu bytes) failed without a fault", data.size());
         failed = true;
@@ -340,6 +351,7 @@ Plan generate_common(uint64_t seed, bool thorough, bool allow_reset) {
   p.set("arch", int64_t(cfg.below(3)));
   p.set("builder", int64_t(cfg.chance(1, 3)));
   p.set("abandoned", cfg.chance(1, 2) ? 0 : int64_t(1 + cfg.below(2)));
+  p.set("extra_labels", int64_t(cfg.below(14)));
   p.set("prefix_nops", int64_t(cfg.below(70)));
   int fault_class = int(cfg.below(3));
   p.set("fault_class", fault_class);
